@@ -162,7 +162,8 @@ def handle (j : Json) : Json :=
     (if getBool j "authReadsBody" && !log.isEmpty then ["auth.readsbody"] else []) ++
     (if getBool j "optionsNil" then ["opt.nil"] else []) ++
     (if getBool j "noise" then ["req.noise"] else []) ++
-    (if getBool j "noise" && one.cookies.length > 1 then ["req.noise.shadowed-cookie"] else []) ++
+    (if getBool j "noise" && one.cookies.length > 2 then ["req.noise.shadowed-cookie"] else []) ++
+    (if !(getArr j "otherOpts").isEmpty then ["opt.other"] else []) ++
     (if calls.length > 1 then ["hist"] else []) ++
     (if calls.length > 2 then ["hist.long"] else []) ++
     (if histDiffer then ["hist.differ"] else []) ++
